@@ -87,5 +87,6 @@ Definition wf_case (c : case) : bool :=
   | CV4Tx _ t o => wf_tx4 t && wf_obs4 o
   | CV4Mut f t t' o o' => mut4_class_ok f t t' && wf_tx4 t && wf_tx4 t' && wf_obs4 o && wf_obs4 o'
   | CVec _ a b => len_is 32 a && len_is 32 b
+  | CReparse _ _ a _ => len_is 32 a
   | CPanicTx _ | CPanicTx4 _ | CPanicOther => true
   end.
